@@ -98,7 +98,7 @@ impl RenetClient {
             decreases self.pending_acks@.len(),
 //@before /let range: &mut Range<u64> = &mut self\.pending_acks\[0\];/
             let ghost s0 = self.pending_acks@;
-//@before /return;/ 1
+//@afteropt /if largest_ack < range\.start \{/
                 proof {
                     assert(*range == s0[0]);
                     lemma_trim_done_below(old(self).pending_acks@, s0, largest_ack);
@@ -111,7 +111,7 @@ impl RenetClient {
                     assert(self.pending_acks@ =~= s0.update(0, s0[0]).remove(0));
                     assert(s0.update(0, s0[0]) =~= s0);
                 }
-//@before /return;/ 2
+//@before /return;/ last
             proof {
                 lemma_trim_done_cut(old(self).pending_acks@, s0, largest_ack);
                 if largest_ack + 1 < s0[0].end {
